@@ -113,6 +113,10 @@ def run_one(rec: Rec, spec, steps, family, kind, style, mode):
         if (crashed and st["two_exchanges"]) or st.get("two_exchanges_this_trial"):
             key = "C04/two-exchange-moves-succeed-in-one-plain-composite-trial"
             what = "a plain composite (built with +) performed two exchange moves in one trial: " + what
+            # the listed defect has corrupted this simulation's state (stale reference energy / geometry that the next
+            # rejected trial inherits): the simulation is abandoned after this trial instead of re-reporting the same
+            # corruption under other keys; every other simulation is still judged in full
+            st["tainted"] = True
         rec.viol(key, what, witness)
 
     def snap(m):
@@ -192,6 +196,8 @@ def run_one(rec: Rec, spec, steps, family, kind, style, mode):
             elif t.verdict is not None and delta > 1:
                 viol(f"C04/evaluation-count/extra/{v}", f"a {v} trial spent {delta} energy evaluations (one is allowed)", {**wit, "last_cache_invalidation": st.get("last_invalid")})
         rec.sample({**wit, "energy": e_true}, cap=3)
+        if st.get("tainted"):
+            raise Abandoned
 
     def check_count(where):
         st["two_exchanges_this_trial"] = False
@@ -209,6 +215,8 @@ def run_one(rec: Rec, spec, steps, family, kind, style, mode):
         for _ in range(steps):
             trace(mc, 1, snap=snap, on_trial=on_trial)
             check_count("after a step incl. the logger call")
+    except Abandoned:
+        rec.count("simulations_abandoned_after_listed_finding")
     except Exception as ex:  # noqa: BLE001
         if EXCH["ok"] >= 2 or EXCH["second_started"]:
             st["two_exchanges"] = True
@@ -220,6 +228,10 @@ def run_one(rec: Rec, spec, steps, family, kind, style, mode):
         else:
             viol(f"C04/run-raised/{classify_exception(ex)}", f"simulation raised {type(ex).__name__}: {ex}"[:300], {**wit0, "traceback": traceback.format_exc()[-500:]}, crashed=True)
     rec.count("keyed_results_handed_out", getattr(calc, "handed_out", 0))
+
+
+class Abandoned(Exception):
+    """Raised by the monitor to stop a simulation whose state a listed finding has corrupted."""
 
 
 def run(spec):
